@@ -388,6 +388,74 @@ pub fn run(ctx: &Ctx) {
 
     super::regressions::run(ctx, "C08", |j| replay(j));
 
+    // Texts that differ ONLY in whitespace and yet denote different token sequences (a line break ends a comment; whitespace
+    // inside a string literal is content), parsed right after each other, first thing in the process: whitespace is
+    // insignificant between tokens and nowhere else. Each text is compared with the (stateless) reference parser.
+    let fixed_pairs: Vec<Vec<String>> = vec![
+        vec!["x // note\n + y".into(), "x // note + y".into(), "x // note\r\n + y".into()],
+        vec!["[x, // first\n y]".into(), "[x, // first y]".into()],
+        vec!["x contains \"a b\"".into(), "x contains \"a  b\"".into(), "x contains \"a\tb\"".into(), "x contains \"a\nb\"".into()],
+        vec!["\" a\"".into(), "\"a \"".into(), "\"a\"".into()],
+        vec!["a //\n b".into(), "a // b".into(), "a /\n/ b".into()],
+        vec!["i1 + i 2".into(), "i1 + i2".into(), "i 1 + i2".into()],
+    ];
+    let near = |bytes: &[u8]| -> Vec<String> {
+        let (toks, l1, _, _) = layout_case(bytes);
+        let mut out = vec![l1.clone()];
+        if let Some(p) = l1.find("//") {
+            if let Some(q) = l1[p..].find('\n') {
+                let mut v = l1.clone();
+                v.replace_range(p + q..p + q + 1, " ");
+                out.push(v);
+            }
+        }
+        out.push(l1.split_whitespace().collect::<Vec<_>>().join(" "));
+        out.push(l1.replace('\n', " "));
+        // whitespace inside string literals changed
+        let widened: Vec<String> = toks
+            .iter()
+            .map(|t| match t {
+                Tok::Str(s) => s.replace(' ', "  ").replace('\t', " "),
+                other => other.text().to_string(),
+            })
+            .collect();
+        out.push(widened.join(" "));
+        out.push(toks.iter().map(|t| t.text().to_string()).collect::<Vec<_>>().join(" "));
+        out
+    };
+    let check_group = |group: &[String]| -> Verdict {
+        for t in group {
+            super::c07::check_text_against(t, parse_expr(t)).map_err(|i| Issue::new(i.sig.replace("grammar:", "whitespace:"), i.msg))?;
+        }
+        Ok(())
+    };
+    ctx.list(
+        "whitespace-only-differences-fixed",
+        &fixed_pairs,
+        |g, acc| {
+            acc.case("ws:fixed", true, || format!("{g:?}"));
+            check_group(g)
+        },
+        |g| json!({"text_group": g}),
+        "group",
+    );
+    let nn = ctx.tier.pick(6_000u64, 200_000u64);
+    ctx.random(
+        "whitespace-only-differences",
+        nn,
+        || gen::recipe(300),
+        |bytes, acc| {
+            let g = near(bytes);
+            if let Some(acc) = acc {
+                let distinct: std::collections::BTreeSet<&String> = g.iter().collect();
+                acc.case("ws:generated", distinct.len() >= 3, || format!("{g:?}"));
+            }
+            check_group(&g)
+        },
+        |bytes| json!({"text_group": near(bytes)}),
+        "group",
+    );
+
     // ints
     let mut boundary: Vec<i128> = crate::pool::ints()
         .into_iter()
@@ -681,6 +749,15 @@ pub fn replay(j: &serde_json::Value) -> Option<Verdict> {
     }
     if let Some(t) = j.get("source_text").and_then(|x| x.as_str()) {
         return Some(super::c07::check_text_against(t, parse_expr(t)));
+    }
+    if let Some(g) = j.get("text_group").and_then(|x| x.as_array()) {
+        for t in g {
+            let t = t.as_str()?;
+            if let Err(i) = super::c07::check_text_against(t, parse_expr(t)) {
+                return Some(Err(i));
+            }
+        }
+        return Some(Ok(()));
     }
     if let Some(l1) = j.get("layout1").and_then(|x| x.as_str()) {
         let l2 = j.get("layout2")?.as_str()?;
